@@ -10,7 +10,7 @@ pub fn def() -> PropDef {
         builds: FULL,
         rule: "F: every fragment sequence over integer menus (30-fragment menu to n=4/5, 3-fragment menu to n=10/14, periodic sequences to n=60, a 2^20-scaled menu) satisfying the statement's precondition pen_i <= w_{i+1}, x one- and two-element line-width lists (all >= 1) x penalty records; cost(real wrap_optimal_fit result) under the documented cost model must equal the minimum (O(n^2) recursion, itself cross-checked against explicit enumeration of all 2^(n-1) arrangements for n <= 9) and not exceed the cost of the real first-fit arrangement; T: every text over {L,LL,LLL,SP,HY,NL,W} x optimal-fit configurations without the zero-width sentinel; non-trivial = an optimal arrangement with >= 2 lines",
         assumptions: BASE_ASSUMPTIONS,
-        floor: |t| t.pick(100_000, 1_000_000),
+        floor: |t| t.pick(100_000, 300_000),
         run,
     }
 }
